@@ -28,13 +28,28 @@ def gen_valid_consts():
                 missing.append(n)
                 continue
             out.append("def %s : Nat := %d" % (n, v))
-    # code variants (see findings F60, F17 of component `valid`): a repaired tree has the helper the fix introduces
-    src = open(os.path.join(ex.SRC, "validation.c")).read()
-    out.append("\n-- validation.c: does lyd_validate_unique fall back to a leaf's schema default whatever its ancestors (finding F60)?")
-    out.append("def uniqueDefaultAlways : Bool := %s" % ("false" if "lyd_val_uniq_dflt_in_use" in src else "true"))
-    src2 = open(os.path.join(ex.SRC, "tree_data_common.c")).read()
-    out.append("-- tree_data_common.c: does lyd_is_default compare a leaf-list instance with any single default (finding F17)?")
-    out.append("def isDefaultAnyOne : Bool := %s" % ("false" if "lyd_is_default_llist" in src2 else "true"))
+    # code variants (findings F60, F63, F65, F66, F17 of component `valid`): the model follows the tree it is checked against
+    val = open(os.path.join(ex.SRC, "validation.c")).read()
+    new = open(os.path.join(ex.SRC, "tree_data_new.c")).read()
+    com = open(os.path.join(ex.SRC, "tree_data_common.c")).read()
+
+    def body(src, name):
+        m = re.search(r"^%s\(.*?^}" % re.escape(name), src, re.S | re.M)
+        if not m:
+            missing.append(name)
+            return ""
+        return m.group(0)
+    uniq = body(val, "lyd_val_uniq_list_equal") + body(val, "lyd_validate_unique")
+    out.append("\n-- validation.c: lyd_validate_unique falls back to a leaf's schema default whatever its ancestors (F60)")
+    out.append("def uniqueDefaultAlways : Bool := %s" % ("true" if re.search(r"=\s*(slist->)?uniques\[u\]\[v\]->dflt;", uniq) else "false"))
+    out.append("-- tree_data_new.c: lyd_new_implicit completes node->schema->parent, the innermost case of the data node it found (F65)")
+    out.append("def implicitInnerCase : Bool := %s" % ("true" if re.search(r"first,\s*node->schema->parent,", body(new, "lyd_new_implicit")) else "false"))
+    out.append("-- validation.c: lyd_validate_autodel_case_dflt looks at the innermost case only (F66)")
+    out.append("def autodelDirectCase : Bool := %s" % ("false" if re.search(r"for\s*\(scase", body(val, "lyd_validate_autodel_case_dflt")) else "true"))
+    out.append("-- validation.c: lyd_val_diff_add gives only a create of a user-ordered node its anchor (F63)")
+    out.append("def valDiffNoDeleteAnchor : Bool := %s" % ("true" if re.search(r"\(op == LYD_DIFF_OP_CREATE\) && lysc_is_userordered", body(val, "lyd_val_diff_add")) else "false"))
+    out.append("-- tree_data_common.c: lyd_is_default compares a leaf-list instance with each single default (F17)")
+    out.append("def isDefaultAnyOne : Bool := %s" % ("true" if re.search(r"compare with each possible default value", body(com, "lyd_is_default")) else "false"))
     out.append("\nend LyModel.Generated\n")
     if missing:
         out.insert(1, "-- not found in this tree: " + " ".join(missing))
